@@ -1,3 +1,39 @@
 import GoagModel.Resp
+/-
+  C10 (second sentence) — what the generated client's status switch does with a status code.
+  `Resp.clientArm` is the model of `switch resp.StatusCode` in the emitted `Client.<Op>`
+  (one case per numbered status, then the default arm); it is tied to the generated client on
+  every run by injecting 11 status codes per operation through a stub transport
+  (`clientstatus` in the `respf` facet).  For every list of documented numbered statuses, every
+  status code and both settings of "has a default response":
+-/
 namespace Goag.Resp
+
+/-- a documented arm is only ever chosen for its own status code, and that code is documented -/
+theorem documented_arm_exact (numbered : List Nat) (hasDef : Bool) (st s : Nat)
+    (h : clientArm numbered hasDef st = .documented s) : s = st ∧ st ∈ numbered := by
+  unfold clientArm at h
+  by_cases hc : st ∈ numbered
+  · simp [hc] at h
+    exact ⟨h.symm, hc⟩
+  · cases hasDef <;> simp [hc] at h
+
+/-- every documented numbered status reaches its own arm -/
+theorem documented_reaches_arm (numbered : List Nat) (hasDef : Bool) (st : Nat) (h : st ∈ numbered) :
+    clientArm numbered hasDef st = .documented st := by
+  simp [clientArm, h]
+
+/-- an undocumented status is delivered through `default` when one is declared … -/
+theorem undocumented_to_default (numbered : List Nat) (st : Nat) (h : st ∉ numbered) :
+    clientArm numbered true st = .default := by
+  simp [clientArm, h]
+
+/-- … and as an error otherwise — never as a wrong documented response -/
+theorem undocumented_is_error (numbered : List Nat) (st : Nat) (h : st ∉ numbered) :
+    clientArm numbered false st = .notImplemented := by
+  simp [clientArm, h]
+
+example : clientArm [200, 404] true 418 = .default ∧ clientArm [200, 404] false 418 = .notImplemented ∧
+    clientArm [200, 404] true 404 = .documented 404 := by decide
+
 end Goag.Resp
